@@ -98,9 +98,8 @@ def sanitiser_verdict(F, path):
                 if not (ccr and clf):
                     continue
                 # the switch on the test result: the raw block must be reachable only via the false edge
-                sb = c.target
-                t = b.blocks[sb]["t"]
-                if t[0] == "switch" and t[1][0] != "k" and t[1][1][0] == c.dest[0]:
+                sb, t = b.switch_on(c.dest[0], c.target)
+                if t is not None:
                     false_t = [tgt for v, tgt in t[2] if v == "0"]
                     true_t = t[3] if false_t else None
                     if false_t and true_t is not None and i not in b.reachable(true_t) and b.dominates(sb, i):
